@@ -25,35 +25,37 @@ type Finding struct {
 
 // Result is what a child reports to the coordinator.
 type Result struct {
-	Case          Case              `json:"case"`
-	Findings      []Finding         `json:"findings"`
-	Notes         []string          `json:"notes,omitempty"`
-	Inconclusive  string            `json:"inconclusive,omitempty"`
-	HarnessError  string            `json:"harness_error,omitempty"`
-	Produced      int64             `json:"produced"`
-	ProducedO     int64             `json:"produced_output"`
-	ProducedE     int64             `json:"produced_error"`
-	Verified      int64             `json:"verified"`   // (group, id) pairs found with exactly the expected multiplicity, intact
-	SinkLines     int64             `json:"sink_lines"` // lines parsed back
-	IDLines       int64             `json:"id_lines"`   // lines carrying a message id
-	Switches      int64             `json:"switches"`   // adjacent sink lines from different producers (actual interleaving of producers)
-	MaxActive     int64             `json:"max_active"` // most producers inside the workload at once
-	SetLogSrc     int64             `json:"set_log_source_calls"`
-	SetLoggerSrc  int64             `json:"set_logger_source_calls"`
-	SetErrors     int64             `json:"set_source_errors"`
-	AppendCalls   int64             `json:"append_calls"`
-	AppendJudged  int64             `json:"append_judged"` // messages begun after a concurrent Append returned, judged against the appended member
-	Groups        int               `json:"groups"`
-	Multiplicity  map[string][2]int `json:"sequential_multiplicity,omitempty"`
-	MaxPayload    int               `json:"max_payload"`
-	MinPayload    int               `json:"min_payload"`
-	AsyncProduced int64             `json:"async_produced,omitempty"`
-	AsyncDeliv    int64             `json:"async_delivered,omitempty"`
-	AsyncReported int64             `json:"async_reported_dropped,omitempty"`
-	AsyncReports  int64             `json:"async_drop_reports,omitempty"`
-	QuietLeak     int64             `json:"quiet_output_leaked,omitempty"`
-	WorkloadMS    int64             `json:"workload_ms"`
-	SampleLines   []string          `json:"sample_lines,omitempty"`
+	Case            Case              `json:"case"`
+	Findings        []Finding         `json:"findings"`
+	Notes           []string          `json:"notes,omitempty"`
+	Inconclusive    string            `json:"inconclusive,omitempty"`
+	HarnessError    string            `json:"harness_error,omitempty"`
+	Produced        int64             `json:"produced"`
+	ProducedO       int64             `json:"produced_output"`
+	ProducedE       int64             `json:"produced_error"`
+	Verified        int64             `json:"verified"`   // (group, id) pairs found with exactly the expected multiplicity, intact
+	SinkLines       int64             `json:"sink_lines"` // lines parsed back
+	IDLines         int64             `json:"id_lines"`   // lines carrying a message id
+	Switches        int64             `json:"switches"`   // adjacent sink lines from different producers (actual interleaving of producers)
+	MaxActive       int64             `json:"max_active"` // most producers inside the workload at once
+	SetLogSrc       int64             `json:"set_log_source_calls"`
+	SetLoggerSrc    int64             `json:"set_logger_source_calls"`
+	SetErrors       int64             `json:"set_source_errors"`
+	AppendCalls     int64             `json:"append_calls"`
+	NonMemberJudged int64             `json:"non_member_judged"` // messages checked to be ABSENT from a sink that is not a member of the composite they went through
+	AppendJudged    int64             `json:"append_judged"`     // messages begun after a concurrent Append returned, judged against the appended member
+	Groups          int               `json:"groups"`
+	Multiplicity    map[string][2]int `json:"sequential_multiplicity,omitempty"`
+	MaxPayload      int               `json:"max_payload"`
+	MinPayload      int               `json:"min_payload"`
+	AsyncProduced   int64             `json:"async_produced,omitempty"`
+	AsyncDeliv      int64             `json:"async_delivered,omitempty"`
+	AsyncReported   int64             `json:"async_reported_dropped,omitempty"`
+	AsyncReports    int64             `json:"async_drop_reports,omitempty"`
+	AsyncStuck      int64             `json:"async_held_back_until_flush,omitempty"`
+	QuietLeak       int64             `json:"quiet_output_leaked,omitempty"`
+	WorkloadMS      int64             `json:"workload_ms"`
+	SampleLines     []string          `json:"sample_lines,omitempty"`
 }
 
 const alphabet = "jkqvwxz"
@@ -320,6 +322,10 @@ func runChild(c Case, res *Result) {
 		wg.Add(1)
 		go func(p int, role string) {
 			defer wg.Done()
+			tgt := lg
+			if b.target != nil {
+				tgt = b.target(p)
+			}
 			<-start
 			a := active.Add(1)
 			for {
@@ -370,9 +376,9 @@ func runChild(c Case, res *Result) {
 				}
 				m := all[p][s]
 				if m.stream == 'O' {
-					lg.Log(m.text)
+					tgt.Log(m.text)
 				} else {
-					lg.LogError(m.text)
+					tgt.LogError(m.text)
 				}
 			}
 			active.Add(-1)
@@ -396,6 +402,23 @@ func runChild(c Case, res *Result) {
 		if !settled {
 			res.Inconclusive = "asynchronous logger still delivering after the generous wait"
 			return
+		}
+		// The third-party ring can hold messages back for ever when a writer's slot was taken from under it (its
+		// sequence number is then never stored and the reader waits on that empty slot until the ring wraps):
+		// such messages are still BUFFERED, neither dropped nor delivered, and the next `ring` messages release
+		// them (delivered, or reported as dropped). Buffered messages are not judged, so when the accounting does
+		// not balance the ring is flushed with paced id-less filler lines from one goroutine and read again.
+		if d := asyncDeficit(c, b, streams, res.Produced); d > 0 {
+			res.AsyncStuck = d
+			for i := 0; i <= c.Ring; i++ {
+				lg.Log("filler")
+				lg.LogError("filler")
+				time.Sleep(time.Millisecond)
+			}
+			if !quiesce(b, c, 1<<62) {
+				res.Inconclusive = "asynchronous logger still delivering after the flush"
+				return
+			}
 		}
 	}
 
@@ -432,17 +455,41 @@ func runChild(c Case, res *Result) {
 	if err := lg.Close(); err != nil {
 		res.Notes = append(res.Notes, "Close(): "+err.Error())
 	}
+	for _, cl := range b.closers {
+		_ = cl.Close()
+	}
 	runtime.KeepAlive(lg)
 }
 
 func sig(c Case, g *group, effect, phase string) map[string]string {
-	return map[string]string{"ctor": c.Ctor, "effect": effect, "phase": phase, "sink": g.kind}
+	m := map[string]string{"ctor": c.Ctor, "effect": effect, "phase": phase, "sink": g.kind}
+	if c.Shared != "" {
+		m["history"] = "shared-slice:" + c.Shared
+	}
+	return m
 }
 
 func judgeGroup(c Case, b *built, g *group, pp *parsed, all [][]msg, masks [][]uint8, calibrated bool, res *Result) {
 	// sequential multiplicity of this group, per stream
 	k := [2]int{1, 1}
-	if calibrated && g.appendBit < 0 {
+	fromOK := func(p int) bool { return g.from == nil || g.from(p) }
+	var strays []string
+	nStray := 0
+	stray := func(p, s, got int) {
+		res.NonMemberJudged++
+		if got > 0 {
+			nStray++
+			if len(strays) < 8 {
+				strays = append(strays, fmt.Sprintf("m%d-%d-%c x%d", p, s, all[p][s].stream, got))
+			}
+		}
+	}
+	if calibrated && !fromOK(0) {
+		for s := 1; s < len(all[0]); s++ {
+			stray(0, s, pp.count[[2]int{0, s}])
+		}
+	}
+	if calibrated && g.appendBit < 0 && fromOK(0) {
 		var ks [2][]int
 		for s := 1; s < len(all[0]); s++ {
 			i := 0
@@ -472,6 +519,9 @@ func judgeGroup(c Case, b *built, g *group, pp *parsed, all [][]msg, masks [][]u
 		}
 		if !g.secondary && !b.roundtrip && k != want {
 			eff := "lost"
+			if len(b.groups) > 1 {
+				eff = "member-missing"
+			}
 			if k[0] > want[0] || k[1] > want[1] {
 				eff = "duplicated"
 			}
@@ -535,6 +585,10 @@ func judgeGroup(c Case, b *built, g *group, pp *parsed, all [][]msg, masks [][]u
 				continue
 			}
 			got := pp.count[[2]int{p, s}]
+			if !fromOK(p) {
+				stray(p, s, got)
+				continue
+			}
 			if g.appendBit >= 0 {
 				if masks[p][s]&(1<<g.appendBit) == 0 {
 					// begun before (or while) the member was appended: may or may not be there
@@ -564,6 +618,11 @@ func judgeGroup(c Case, b *built, g *group, pp *parsed, all [][]msg, masks [][]u
 			}
 		}
 	}
+	if nStray > 0 {
+		res.Findings = append(res.Findings, Finding{Sig: sig(c, g, "non-member-received-messages", "concurrent"),
+			What:    fmt.Sprintf("%s: %s was never made a member of the composite, yet it received %d message(s) logged through it", c.Ctor, g.name, nStray),
+			Witness: map[string]any{"case": c, "group": g.name, "received": nStray, "ids": strays}})
+	}
 	lostEffect := "lost"
 	if len(b.groups) > 1 && !g.secondary {
 		lostEffect = "member-missing"
@@ -592,6 +651,27 @@ func stdReported(c Case) (total, reports int64) {
 	return
 }
 
+// asyncDeficit = produced − delivered − reported as dropped, read from the sinks right now.
+func asyncDeficit(c Case, b *built, streams map[[2]int]byte, produced int64) int64 {
+	pp := &parsed{count: map[[2]int]int{}}
+	for _, s := range b.groups[0].sinks {
+		pp.add(s.read(), streams)
+	}
+	var delivered int64
+	for id := range pp.count {
+		if id[0] >= 1 {
+			delivered++
+		}
+	}
+	var reported int64
+	if b.drop != nil {
+		reported = b.drop.total.Load()
+	} else {
+		reported, _ = stdReported(c)
+	}
+	return produced - delivered - reported
+}
+
 func judgeAsync(c Case, b *built, pp *parsed, res *Result) {
 	g := b.groups[0]
 	var delivered int64
@@ -612,7 +692,8 @@ func judgeAsync(c Case, b *built, pp *parsed, res *Result) {
 		res.Findings = append(res.Findings, Finding{Sig: sig(c, g, "unreported-drop", "concurrent"),
 			What: fmt.Sprintf("%s (ring %d): produced %d, delivered %d at quiescence, but only %d reported as dropped (%d reports): %d message(s) vanished unreported",
 				c.Ctor, c.Ring, res.Produced, delivered, reported, reports, res.Produced-delivered-reported),
-			Witness: map[string]any{"case": c, "produced": res.Produced, "delivered": delivered, "reported_dropped": reported, "drop_reports": reports}})
+			Witness: map[string]any{"case": c, "produced": res.Produced, "delivered": delivered, "reported_dropped": reported, "drop_reports": reports,
+				"unaccounted_before_flushing_the_ring": res.AsyncStuck}})
 	}
 }
 
